@@ -285,65 +285,295 @@ def replay_dict(case):
     return d
 
 
-def expiry_case(net, plan):
-    """plan: [(ann, hname, key)].  All announcements happen at the same virtual instant (default schedule takes no
-    virtual time); lookups at T+24h-1s, exactly T+24h and T+24h+1s."""
+HOUR = 3600
+ANNOUNCER_HOURS = {'quick': 26, 'thorough': 120}
+
+
+def expiry_plan(n, tier=None):
+    anns = announcers(n) if n <= 4 else [n - 1]
+    return [(a, h, blob_key(n, a, h)) for a in anns for h in HASH_NAMES]
+
+
+def histories(n, long):
+    """Announcement histories on one timeline: (label, key, [(offset seconds, announcer, duplicate the store datagrams)]).
+    'single' = the (announcer, hash) alphabet of the hit half, announced once at offset 0.  The long part adds the same
+    node announcing the same blob again 1 s / 12 h / 24 h - 1 s later, a second node announcing it 12 h later, and a
+    re-announcement whose store datagrams all arrive twice."""
+    out = [('single', key, [(0, a, False)], h) for a, h, key in expiry_plan(n)]
+    if long:
+        x, y = n - 1, (n - 2) % n
+
+        def hk(tag):
+            return hashlib.sha384(b'history:' + tag).digest()
+        out += [('re-announce+1s', hk(b'A'), [(0, x, False), (1, x, False)], ''),
+                ('re-announce+12h', hk(b'B'), [(0, x, False), (12 * HOUR, x, False)], ''),
+                ('re-announce+24h-1s', hk(b'C'), [(0, x, False), (DAY - 1, x, False)], ''),
+                ('second-announcer+12h', hk(b'D'), [(0, x, False), (12 * HOUR, y, False)], ''),
+                ('re-announce+12h-duplicated-store', hk(b'F'), [(0, x, True), (12 * HOUR, x, True)], '')]
+    return out
+
+
+SINGLE_PROBES = (DAY - 1, DAY, DAY + 1)
+LONG_PROBES = (DAY - 1, DAY, DAY + 1, DAY + 2, 36 * HOUR - 1, 36 * HOUR + 1, 2 * DAY - 2, 2 * DAY)
+
+
+def is_store_request(d):
+    return d.ptype == 0 and b'5:store' in d.data
+
+
+def expected_at(now, stamps):
+    """stamps = [(start, end)] of the completed announcements of one node for one blob.  Age counts from the LATEST
+    announcement: 'found' while it is younger than 24 h, 'gone' from 24 h on ('gone-exact' at exactly 24 h), None while
+    the latest announcement straddles the boundary (never on the default schedule, where an announce takes 0 s)."""
+    past = [(lo, hi) for lo, hi in stamps if hi <= now]
+    if not past:
+        return None
+    lo, hi = max(past, key=lambda x: x[1])
+    if now - lo < DAY:
+        return 'found'
+    if now - hi >= DAY:
+        return 'gone-exact' if (now - hi == DAY and lo == hi) else 'gone'
+    return None
+
+
+def expiry_case(net, long=False):
+    """Runs every history of histories(n, long) on one timeline that starts now (t0): announcements at their offsets (through
+    the real announce_blob / store path), value lookups by every other node at t0+24h-1s, +24h, +24h+1s and, for the long
+    histories, around 36 h and 48 h, all after unbroken periodic traffic.  The expectation of every probe is computed from
+    the times at which the announcements actually completed (reference: age counts from the latest announcement)."""
     from vf.udpfab import node_ip
     lp = net.loop
     lp.activate()
-    obs = {'announce': [], 'probes': []}
-    for ann, hname, key in plan:
-        status, task = lp.run_task(net.nodes[ann].announce_blob(key.hex()), max_steps=HIT_STEPS)
-        st, exc = task_outcome(status, task, lp)
-        obs['announce'].append({'ann': ann, 'hash': hname, 'status': st, 'stored': len(task.result()) if st == 'done' else 0})
-    stamps = sorted({ts for nd in net.nodes for lst in nd.protocol.data_store._data_store.values() for _, ts in lst})
-    obs['stamps'] = stamps
-    if not stamps:
-        return obs
-    lo, hi = stamps[0], stamps[-1]
-    for label, when in (('24h-1s', lo + DAY - 1), ('24h', hi + DAY), ('24h+1s', hi + DAY + 1)):
-        if not lp.advance_to(when, max_steps=6_000_000):
-            obs['stuck'] = label
+    hs = histories(net.n, long)
+    t0 = lp.time()
+    obs = {'announce': [], 'probes': [], 't0': t0}
+    done = {}                      # (history index, announcer) -> [(start, end)]
+    offsets = sorted({off for _, _, anns, _ in hs for off, _, _ in anns} |
+                     set(LONG_PROBES if long else SINGLE_PROBES))
+    for off in offsets:
+        if not lp.advance_to(t0 + off, max_steps=6_000_000):
+            obs['stuck'] = off
             break
-        for ann, hname, key in plan:
+        for hi_, (label, key, anns, hname) in enumerate(hs):
+            for aoff, ann, dup in anns:
+                if aoff != off:
+                    continue
+                lp.dup_on_send = is_store_request if dup else None
+                start = lp.time()
+                status, task = lp.run_task(net.nodes[ann].announce_blob(key.hex()), max_steps=HIT_STEPS)
+                lp.dup_on_send = None
+                lp.run_until(lambda: not lp.inflight and not lp._ready, max_steps=HIT_STEPS)   # late duplicates land
+                st, exc = task_outcome(status, task, lp)
+                stored = len(task.result()) if st == 'done' else 0
+                obs['announce'].append({'history': label, 'hash': hname, 'ann': ann, 'at': off, 'status': st,
+                                        'stored': stored, 'took': round(lp.time() - start, 3)})
+                if stored:
+                    done.setdefault((hi_, ann), []).append((start, lp.time()))
+        for hi_, (label, key, anns, hname) in enumerate(hs):
+            if off not in (SINGLE_PROBES if label == 'single' else LONG_PROBES):
+                continue
+            who = sorted({a for _, a, _ in anns})
             for s in range(net.n):
-                if s == ann:
+                if who == [s]:
                     continue
                 sink = []
                 t1 = lp.time()
                 status, task = lp.run_task(value_lookup(net.nodes[s], key, sink), max_steps=HIT_STEPS)
                 st, exc = task_outcome(status, task, lp)
-                obs['probes'].append({'at': label, 'ann': ann, 'hash': hname, 'searcher': s, 'status': st,
-                                      'hit': (node_ip(ann), TCP_PORT) in {(a, p) for a, p, _ in sink},
-                                      'duration': round(lp.time() - t1, 3)})
-    obs['exact'] = lo == hi
+                found = {(a, p) for a, p, _ in sink}
+                for ann in who:
+                    if ann == s:
+                        continue
+                    obs['probes'].append({'at': off, 'history': label, 'hash': hname, 'ann': ann, 'searcher': s,
+                                          'status': st, 'hit': (node_ip(ann), TCP_PORT) in found,
+                                          'expect': expected_at(t1, done.get((hi_, ann), [])),
+                                          'duration': round(lp.time() - t1, 3)})
+    obs['duplicate_entries'] = sum(
+        1 for nd in net.nodes for lst in nd.protocol.data_store._data_store.values()
+        if len({(p.address, p.udp_port, p.node_id) for p, _ in lst}) != len(lst))
     return obs
 
 
 def judge_expiry(n, obs):
     out = []
-    if obs.get('stuck'):
+    if obs.get('stuck') is not None:
         out.append(({'kind': 'network-never-quiesces', 'n': n},
-                    f"virtual time stopped advancing on the way to {obs['stuck']} after the announcement"))
-    ok_ann = {(a['ann'], a['hash']) for a in obs['announce'] if a['status'] == 'done' and a['stored']}
+                    f"virtual time stopped advancing on the way to t0+{obs['stuck']} s after the announcement"))
     for p in obs['probes']:
-        if (p['ann'], p['hash']) not in ok_ann:
+        extra = {} if p['history'] == 'single' else {'history': p['history']}
+        where = f"(history '{p['history']}', announcer {p['ann']}, t0+{p['at']} s, searcher {p['searcher']})"
+        if p['expect'] is None:
             continue
         if p['status'] != 'done':
-            out.append(({'kind': 'value-lookup-not-finished', 'n': n, 'status': p['status'], 'schedule': 'expiry'},
-                        f"lookup at {p['at']} by node {p['searcher']}: {p['status']}"))
-        elif p['at'] == '24h-1s' and not p['hit'] and p['duration'] < 1:
-            out.append(({'kind': 'expired-early', 'n': n}, f"announcement younger than 24 h not returned to node {p['searcher']}"))
-        elif p['at'] == '24h' and p['hit'] and obs['exact']:
-            out.append(({'kind': 'returned-at-24h', 'n': n}, f"announcement exactly 24 h old still returned to node {p['searcher']}"))
-        elif p['at'] == '24h+1s' and p['hit']:
-            out.append(({'kind': 'returned-after-24h', 'n': n}, f"announcement older than 24 h still returned to node {p['searcher']}"))
+            out.append((dict({'kind': 'value-lookup-not-finished', 'n': n, 'status': p['status'], 'schedule': 'expiry'}),
+                        f"lookup {where}: {p['status']}"))
+        elif p['expect'] == 'found' and not p['hit'] and p['duration'] < 1:
+            out.append((dict({'kind': 'expired-early', 'n': n}, **extra),
+                        f"latest announcement is younger than 24 h but the announcer is not returned {where}"))
+        elif p['expect'] == 'gone-exact' and p['hit']:
+            out.append((dict({'kind': 'returned-at-24h', 'n': n}, **extra),
+                        f"latest announcement is exactly 24 h old and still returned {where}"))
+        elif p['expect'] == 'gone' and p['hit']:
+            out.append((dict({'kind': 'returned-after-24h', 'n': n}, **extra),
+                        f"latest announcement is older than 24 h and still returned {where}"))
     return out
 
 
-def expiry_plan(n, tier):
-    anns = announcers(n) if n <= 4 else [n - 1]
-    return [(a, h, blob_key(n, a, h)) for a in anns for h in HASH_NAMES]
+def port_change_case(net):
+    """The announcer moves its blob server to another TCP port and announces again 12 h later: lookups must return the
+    new port (the entry is refreshed) and nothing at all once the second announcement is 24 h old."""
+    from vf.udpfab import node_ip
+    lp = net.loop
+    lp.activate()
+    x = net.n - 1
+    key = hashlib.sha384(b'history:E').digest()
+    t0 = lp.time()
+    obs = {'announce': [], 'probes': []}
+    for off, port in ((0, TCP_PORT), (12 * HOUR, TCP_PORT + 1)):
+        if not lp.advance_to(t0 + off, max_steps=6_000_000):
+            obs['stuck'] = off
+            return obs
+        net.nodes[x].protocol.peer_port = port
+        net.nodes[x].protocol.node_rpc.peer_port = port
+        status, task = lp.run_task(net.nodes[x].announce_blob(key.hex()), max_steps=HIT_STEPS)
+        st, exc = task_outcome(status, task, lp)
+        obs['announce'].append({'at': off, 'port': port, 'status': st, 'stored': len(task.result()) if st == 'done' else 0})
+    for off in (12 * HOUR, DAY + 1, 36 * HOUR - 1, 36 * HOUR + 1):
+        if not lp.advance_to(t0 + off, max_steps=6_000_000):
+            obs['stuck'] = off
+            return obs
+        for s in range(net.n - 1):
+            sink = []
+            status, task = lp.run_task(value_lookup(net.nodes[s], key, sink), max_steps=HIT_STEPS)
+            st, exc = task_outcome(status, task, lp)
+            ports = sorted({p for a, p, _ in sink if a == node_ip(x)})
+            obs['probes'].append({'at': off, 'searcher': s, 'status': st, 'ports': ports})
+    obs['entries'] = max([sum(1 for p, _ in lst if p.address == node_ip(x))
+                          for nd in net.nodes for k, lst in nd.protocol.data_store._data_store.items() if k == key] or [0])
+    return obs
+
+
+def judge_port_change(n, obs):
+    out = []
+    if obs.get('stuck') is not None:
+        return [({'kind': 'network-never-quiesces', 'n': n}, f"virtual time stopped advancing before t0+{obs['stuck']} s")]
+    if not all(a['status'] == 'done' and a['stored'] for a in obs['announce']):
+        return [({'kind': 'announce-stored-nowhere', 'n': n, 'hash': 'history:E', 'schedule': 'port-change'},
+                 f"announce failed: {obs['announce']}")]
+    for p in obs['probes']:
+        if p['status'] != 'done':
+            out.append(({'kind': 'value-lookup-not-finished', 'n': n, 'status': p['status'], 'schedule': 'port-change'},
+                        f"lookup at t0+{p['at']} s: {p['status']}"))
+        elif p['at'] < 36 * HOUR and (TCP_PORT + 1) not in p['ports']:
+            out.append(({'kind': 'expired-early', 'n': n, 'history': 're-announce+12h-new-tcp-port'},
+                        f"re-announced from tcp port {TCP_PORT + 1} but node {p['searcher']} got ports {p['ports']} at t0+{p['at']} s"))
+        elif p['at'] > 36 * HOUR and p['ports']:
+            out.append(({'kind': 'returned-after-24h', 'n': n, 'history': 're-announce+12h-new-tcp-port'},
+                        f"both announcements older than 24 h, node {p['searcher']} still got ports {p['ports']}"))
+    return out
+
+
+class StubStorage:
+    """The two SQLiteStorage calls BlobAnnouncer makes, with SQLiteStorage's policy (a blob is due when its
+    next_announce_time is in the past; a successful announce moves it DATA_EXPIRATION / 2 ahead) on the virtual clock."""
+
+    def __init__(self, loop, blob_hashes):
+        self.loop = loop
+        self.next_announce_time = {h: 0 for h in blob_hashes}
+        self.marked = []
+
+    async def get_blobs_to_announce(self):
+        now = int(self.loop.time())
+        return [h for h, t in sorted(self.next_announce_time.items()) if t < now]
+
+    async def update_last_announced_blobs(self, blob_hashes):
+        now = self.loop.time()
+        for h in blob_hashes:
+            self.next_announce_time[h] = int(now + DAY / 2)
+            self.marked.append((now, h))
+
+
+def announcer_case(net, hours, follow_expiry=True):
+    """The real lbry.dht.blob_announcer.BlobAnnouncer loop on the last node, one blob, `hours` of virtual time, then the
+    announcer is stopped and the last announcement is followed to its expiry."""
+    from lbry.dht.blob_announcer import BlobAnnouncer
+    from vf.udpfab import node_ip
+    lp = net.loop
+    lp.activate()
+    x = net.n - 1
+    node = net.nodes[x]
+    key = hashlib.sha384(b'history:announcer').digest()
+    t0 = lp.time()
+    log = []
+    real = node.announce_blob
+
+    async def logged(blob_hash):
+        start = lp.time()
+        r = await real(blob_hash)
+        if r:
+            log.append((start, lp.time()))
+        return r
+    node.announce_blob = logged
+    storage = StubStorage(lp, [key.hex()])
+    ba = BlobAnnouncer(lp, node, storage)
+    ba.start(batch_size=10)
+    obs = {'probes': [], 'hours': hours}
+
+    def probe(off, label):
+        if not lp.advance_to(t0 + off, max_steps=20_000_000):
+            obs['stuck'] = off
+            return False
+        for s in (0, 1):
+            sink = []
+            t1 = lp.time()
+            status, task = lp.run_task(value_lookup(net.nodes[s], key, sink), max_steps=HIT_STEPS)
+            st, exc = task_outcome(status, task, lp)
+            obs['probes'].append({'at': off, 'label': label, 'searcher': s, 'status': st,
+                                  'hit': (node_ip(x), TCP_PORT) in {(a, p) for a, p, _ in sink},
+                                  'expect': expected_at(t1, log), 'announcements': len(log),
+                                  'since_first': round(t1 - log[0][0], 1) if log else None})
+        return True
+
+    offs = sorted(set([HOUR] + list(range(6 * HOUR, hours * HOUR, 6 * HOUR)) + [DAY + HOUR, hours * HOUR]))
+    for off in offs:
+        if off <= hours * HOUR and not probe(off, 'running'):
+            return obs
+    ba.stop()
+    lp.run_until(lambda: not lp._ready, max_steps=1000)
+    obs['announce_times'] = [round(a - t0, 1) for a, _ in log]
+    obs['marked'] = len(storage.marked)
+    if log and follow_expiry:
+        last = log[-1][1] - t0
+        for off, label in ((last + DAY - 1, 'stopped'), (last + DAY, 'stopped'), (last + DAY + 1, 'stopped')):
+            if not probe(off, label):
+                return obs
+    return obs
+
+
+def judge_announcer(n, obs):
+    out = []
+    if obs.get('stuck') is not None:
+        return [({'kind': 'network-never-quiesces', 'n': n}, f"virtual time stopped advancing before t0+{obs['stuck']} s")]
+    if not any(p['announcements'] for p in obs['probes']):
+        return [({'kind': 'announce-stored-nowhere', 'n': n, 'hash': 'history:announcer', 'schedule': 'blob-announcer'},
+                 'BlobAnnouncer never completed an announcement')]
+    for p in obs['probes']:
+        where = f"(BlobAnnouncer {p['label']}, t0+{p['at']} s, {p['announcements']} announcements so far, searcher {p['searcher']})"
+        if p['expect'] is None:
+            continue
+        if p['status'] != 'done':
+            out.append(({'kind': 'value-lookup-not-finished', 'n': n, 'status': p['status'], 'schedule': 'blob-announcer'},
+                        f"lookup {where}: {p['status']}"))
+        elif p['expect'] == 'found' and not p['hit']:
+            out.append(({'kind': 'expired-early', 'n': n, 'history': 'blob-announcer-schedule'},
+                        f"latest announcement is younger than 24 h but the announcer is not returned {where}"))
+        elif p['expect'] == 'gone-exact' and p['hit']:
+            out.append(({'kind': 'returned-at-24h', 'n': n, 'history': 'blob-announcer-schedule'},
+                        f"latest announcement is exactly 24 h old and still returned {where}"))
+        elif p['expect'] == 'gone' and p['hit']:
+            out.append(({'kind': 'returned-after-24h', 'n': n, 'history': 'blob-announcer-schedule'},
+                        f"latest announcement is older than 24 h and still returned {where}"))
+    return out
 
 
 def dfs_parts(net, case, fixed, bound, alpha_name, part, parts, res, cap=None):
@@ -445,18 +675,59 @@ def work_hit(item, res):
             case = dict(base, ann=d['ann'], hash=d['hash'])
             dfs_parts(net, case, fixed, d['bound'], d['alphabet'], d['part'], d['parts'], res)
         if item.get('expiry'):
-            plan = expiry_plan(n, None)
-            obs = fork_call(expiry_case, net, plan)
+            long = item['expiry'] == 'long'
+            obs = fork_call(expiry_case, net, long)
             res.count('executions')
             res.count('evaluations', len(obs['probes']))
-            res.distinct_add('states', ('expiry', n, tuple(order), stagger))
-            res.distinct_add('nontrivial', ('expiry', n, tuple(order), stagger))
-            if obs.get('exact'):
-                res.witness('expiry_probed_at_exact_boundary')
-            if any(p['hit'] for p in obs['probes'] if p['at'] == '24h-1s'):
-                res.witness('hit_one_second_before_expiry')
+            res.distinct_add('states', ('expiry', n, tuple(order), stagger, long))
+            for h in {p['history'] for p in obs['probes']}:
+                res.distinct_add('nontrivial', ('expiry', n, tuple(order), stagger, h))
+            for p in obs['probes']:
+                if p['expect'] == 'gone-exact':
+                    res.witness('expiry_probed_at_exact_boundary')
+                if p['expect'] == 'found' and p['hit'] and p['history'] == 'single' and p['at'] == DAY - 1:
+                    res.witness('hit_one_second_before_expiry')
+                if p['expect'] == 'found' and p['hit'] and p['history'].startswith('re-announce') and p['at'] >= DAY:
+                    res.witness('found_more_than_24h_after_first_announcement_thanks_to_reannouncement')
+                if p['expect'] == 'found' and p['hit'] and p['history'] == 're-announce+12h-duplicated-store':
+                    res.witness('reannouncement_with_duplicated_store_datagrams')
+                if p['history'] == 'second-announcer+12h' and p['at'] == DAY + 1 and p['expect'] == 'found' and p['hit']:
+                    res.witness('two_announcers_expire_on_their_own_clocks')
+            if obs['duplicate_entries']:
+                res.tally('interpretation_only:data_store_lists_one_contact_twice_for_a_blob', obs['duplicate_entries'])
             for sig, what in judge_expiry(n, obs):
-                res.violation(sig, what, dict(base, half='expiry'))
+                res.violation(sig, what, dict(base, half='expiry', long=long))
+        if item.get('port_change'):
+            obs = fork_call(port_change_case, net)
+            res.count('executions')
+            res.count('evaluations', len(obs['probes']))
+            res.distinct_add('states', ('port-change', n, tuple(order), stagger))
+            res.distinct_add('nontrivial', ('port-change', n, tuple(order), stagger))
+            if any(p['ports'] == [TCP_PORT + 1] for p in obs['probes']):
+                res.witness('reannouncement_from_new_tcp_port_replaced_the_entry')
+            if any(TCP_PORT in p['ports'] and p['at'] > 12 * HOUR for p in obs['probes']):
+                res.tally('interpretation_only:old_tcp_port_still_returned_after_reannouncement')
+            if obs.get('entries', 0) > 1:
+                res.tally('interpretation_only:data_store_lists_one_contact_twice_for_a_blob')
+            for sig, what in judge_port_change(n, obs):
+                res.violation(sig, what, dict(base, half='portchange'))
+        if item.get('announcer_hours'):
+            hours = item['announcer_hours']
+            obs = fork_call(announcer_case, net, hours, bool(item.get('follow_expiry')))
+            res.count('executions')
+            res.count('evaluations', len(obs['probes']))
+            res.distinct_add('states', ('announcer', n, hours))
+            res.distinct_add('nontrivial', ('announcer', n, hours))
+            running = [p for p in obs['probes'] if p['label'] == 'running' and p['hit'] and p['expect'] == 'found']
+            if running and max(p['announcements'] for p in running) >= 2 and \
+                    max(p['since_first'] or 0 for p in running) > DAY:
+                res.witness('blob_announcer_schedule_keeps_blob_findable_past_24h')
+            res.setmax('blob_announcer_hours_continuously_findable', max([int((p['since_first'] or 0) // HOUR) for p in running] or [0]))
+            res.setmax('blob_announcer_announcements', max([p['announcements'] for p in obs['probes']] or [0]))
+            if any(p['label'] == 'stopped' and p['expect'] in ('gone', 'gone-exact') and not p['hit'] for p in obs['probes']):
+                res.witness('blob_announcer_stopped_blob_expires')
+            for sig, what in judge_announcer(n, obs):
+                res.violation(sig, what, dict(base, half='announcer', hours=hours, follow_expiry=bool(item.get('follow_expiry'))))
     finally:
         net.stop()
 
@@ -948,10 +1219,26 @@ def plan(tier, seed):
         for oi, order in enumerate(orders):
             for stagger in staggers:
                 cases = [(a, h) for a in announcers(n) for h in HASH_NAMES]
-                expiry = (oi == 0 and stagger == 0.0 and n <= 4) if quick else \
-                    (oi in ((0, len(orders) - 1) if n <= 5 else (0,)) and stagger == staggers[0] and n <= 12)
                 items.append({'half': 'hit', 'n': n, 'order': order, 'stagger': stagger, 'seed': seed, 'cases': cases,
-                              'expiry': expiry, 'selfcheck': oi == 0})
+                              'selfcheck': oi == 0})
+                # announcement histories (own items: one 24-48 h time travel each).  'long' = single announcements + the
+                # re-announcement histories over 48 h, 'short' = single announcements over 24 h + 1 s only
+                if stagger == staggers[0]:
+                    if quick:
+                        expiry = 'long' if (oi == 0 and n <= 4) else False
+                    elif oi == 0 and n <= 12:
+                        expiry = 'long' if n <= 8 else 'short'
+                    else:
+                        expiry = 'short' if (oi == len(orders) - 1 and n <= 5) else False
+                    if expiry:
+                        items.append({'half': 'hit', 'n': n, 'order': order, 'stagger': stagger, 'seed': seed,
+                                      'cases': [], 'expiry': expiry})
+                    if oi == 0 and n in ((3,) if quick else (3, 5)):
+                        items.append({'half': 'hit', 'n': n, 'order': order, 'stagger': stagger, 'seed': seed,
+                                      'cases': [], 'port_change': True})
+    # the real BlobAnnouncer loop needs more than 4 storing peers to consider a blob announced: n = 6
+    items.append({'half': 'hit', 'n': 6, 'order': list(range(6)), 'stagger': 0.0, 'seed': seed, 'cases': [],
+                  'announcer_hours': ANNOUNCER_HOURS[tier], 'follow_expiry': not quick})
     # deviation DFS (separate items: each re-runs the deterministic join prefix once, then forks per execution)
     for d in dfs_scope(tier):
         for part in range(d['parts']):
@@ -1045,7 +1332,8 @@ def estimate(it):
     d = it.get('dfs')
     if d:
         return (60 if d['bound'] >= 2 else 3 * n) / d['parts'] * (1 if d['alphabet'] == 'full' else 0.5) + 0.1 * n
-    return 0.12 * n + 0.01 * n * len(it.get('cases', ())) + (1.1 * n if it.get('expiry') else 0)
+    return 0.12 * n + 0.01 * n * len(it.get('cases', ())) + ({'long': 2.2, 'short': 1.1}.get(it.get('expiry'), 0) * n) + \
+        (1.7 * n if it.get('port_change') else 0) + it.get('announcer_hours', 0) / 24 * 1.1 * n
 
 
 def run(ctx):
@@ -1116,7 +1404,7 @@ def replay(data):
             net.stop()
         viol = judge_paging(obs)
         log.append(canon(obs))
-    elif half in ('hit', 'expiry', 'join'):
+    elif half in ('hit', 'expiry', 'join', 'portchange', 'announcer'):
         net, info = build_net(data['n'], data['order'], data['stagger'], data.get('seed', 0))
         try:
             fixed = info['fixed'] and info['all_joined']
@@ -1125,10 +1413,19 @@ def replay(data):
                 viol = [({'kind': 'join-never-quiesces', 'n': data['n']}, 'virtual time does not advance')] if info['stuck'] \
                     else [] if info['all_joined'] else [({'kind': 'join-failed', 'n': data['n']}, 'not every node joined')]
             elif half == 'expiry':
-                obs = expiry_case(net, expiry_plan(data['n'], None))
+                obs = expiry_case(net, bool(data.get('long')))
                 viol = judge_expiry(data['n'], obs)
-                log.append(canon({k: obs[k] for k in ('announce', 'stamps')}))
-                log += [canon(p) for p in obs['probes'] if (p['at'] == '24h-1s') != p['hit']]
+                log.append(canon(obs['announce']))
+                log += [canon(p) for p in obs['probes'] if (p['expect'] == 'found') != p['hit']]
+            elif half == 'portchange':
+                obs = port_change_case(net)
+                viol = judge_port_change(data['n'], obs)
+                log.append(canon(obs))
+            elif half == 'announcer':
+                obs = announcer_case(net, data['hours'], bool(data.get('follow_expiry')))
+                viol = judge_announcer(data['n'], obs)
+                log.append(canon({k: v for k, v in obs.items() if k != 'probes'}))
+                log += [canon(p) for p in obs['probes'] if (p['expect'] == 'found') != p['hit']]
             else:
                 key = blob_key(data['n'], data['ann'], data['hash'])
                 _, obs = hit_case(net, data['ann'], key, tuple(data.get('choices', ())), data.get('bound', 0),
